@@ -19,6 +19,7 @@ import (
 //   guarded : lhs == rhs unless guard evaluates to null
 
 type c17Inst struct {
+	Big    bool // evaluated on the documents with arrays of 130..300 elements
 	Schema string
 	Kind   string
 	LHS    string
@@ -135,6 +136,19 @@ func c17Instances(thorough bool) []c17Inst {
 					out = append(out, c17Inst{Schema: "list-concat", Kind: "concat", LHS: "[" + e1 + ", " + e2 + ", " + e3 + "]", Parts: []string{"[" + e1 + "]", "[" + e2 + "]", "[" + e3 + "]"}, Guard: "@"})
 				}
 			}
+		}
+	}
+	// index boundaries: the same index written after an expression and after a pipe / parentheses / inside map
+	for _, i := range []string{"0", "1", "126", "127", "128", "129", "200", "255", "256", "257", "299", "-1", "-128", "-129", "-200", "-256", "-300"} {
+		for _, x := range []string{"big", "wide[0]", "wide[1]", "(big[*])", "big[*]", "{k: big}.k", "@.big", "wide[*]"} {
+			closed := x
+			if strings.HasSuffix(x, "[*]") && !strings.HasPrefix(x, "(") {
+				closed = "(" + x + ")"
+			}
+			out = append(out, c17Inst{Big: true, Schema: "index-after-pipe", Kind: "eq", LHS: closed + "[" + i + "]", RHS: x + " | [" + i + "]"})
+			out = append(out, c17Inst{Big: true, Schema: "index-in-projection", Kind: "eq", LHS: "wide[*][" + i + "]", RHS: "wide[*] | [*][" + i + "]"})
+			out = append(out, c17Inst{Big: true, Schema: "index-in-map", Kind: "prune", LHS: "wide[*][" + i + "]", RHS: "map(&@[" + i + "], wide)"})
+			out = append(out, c17Inst{Big: true, Schema: "index-in-multiselect", Kind: "concat", LHS: "[" + closed + "[" + i + "], " + x + " | [" + i + "]]", Parts: []string{"[" + closed + "[" + i + "]]", "[" + x + " | [" + i + "]]"}, Guard: "@"})
 		}
 	}
 	// dedupe
@@ -278,6 +292,14 @@ func (p *c17Prepared) check(r *core.Run, d doc) (lhs, rhs core.Obs, judged bool)
 func c17Run(r *core.Run) {
 	insts := c17Instances(r.Thorough())
 	docs := c01Docs(r.Thorough())
+	seq := func(n int) string {
+		parts := make([]string, n)
+		for i := range parts {
+			parts[i] = fmt.Sprint(i)
+		}
+		return "[" + strings.Join(parts, ",") + "]"
+	}
+	bigDocs := []doc{mkDoc(`{"big":` + seq(300) + `,"wide":[` + seq(300) + `,` + seq(130) + `]}`), mkDoc(`{"big":` + seq(256) + `,"wide":[` + seq(129) + `,` + seq(128) + `]}`), mkDoc(`{"big":[1],"wide":[[1],null]}`)}
 	r.Bound("identity_instances", len(insts))
 	r.Bound("documents", len(docs))
 	r.Bound("sources", len(c17Sources))
@@ -291,7 +313,11 @@ func c17Run(r *core.Run) {
 		}
 		p := c17Prepare(inst)
 		r.Add("states", 1)
-		for di, d := range docs {
+		ds := docs
+		if inst.Big {
+			ds = bigDocs
+		}
+		for di, d := range ds {
 			r.Begin(map[string]any{"lhs": inst.LHS, "rhs": inst.RHS, "doc": d.Text})
 			lhs, rhs, judged := p.check(r, d)
 			if !judged {
